@@ -74,7 +74,61 @@ def run_pyvc(prop, tier):
             info['solver'][k] = round(info['solver'].get(k, 0) + v, 3)
     from .pyvc.prims import NUMPY_MODEL
     info['numpy_model'] = NUMPY_MODEL
+    obs += runtime_contract_checks(prop, reg, obs, info)
     return obs, info, crash
+
+
+def runtime_contract_checks(prop, reg, obs, info):
+    """A function contract whose proof is *lost* (function restructured beyond the verified
+    subset, renamed, split) is still checked at run time, through its own text, on sampled inputs:
+    a bounded stand-in, reported as such, that turns "undecided" into a concrete failing input
+    when the restructured code no longer satisfies the contract."""
+    from . import fuzz
+    out = []
+    lost = {}
+    for o in obs:
+        if o['status'] == LOST and o['oid'].rsplit('/', 1)[-1] in ('subset', 'extract'):
+            lost[o['oid'][len('pyvc:'):].rsplit('/', 1)[0]] = o
+    n_checked = 0
+    for key, lo in lost.items():
+        c = reg.contracts.get(key)
+        if c is None or not c.replay or c.stmt or c.block or c.custom:
+            continue
+        models = fuzz.models(c.params, (c.relate or {}).get('extra'), c.cases, reg.records, 300,
+                             seed=int(os.environ.get('VERIF_SEED', '0') or 0))
+        rp = dict(c.replay)
+        rp['ensures'] = [list(x) for x in c.ensures]
+        rp['raises'] = [list(x) for x in c.raises]
+        rp['requires'] = list(c.requires)
+        if c.relate:
+            rp['relate'] = {'second': dict(c.relate.get('second', {})),
+                            'extra': sorted(c.relate.get('extra', {}))}
+        d = os.path.join(REPLAYS, prop)
+        os.makedirs(d, exist_ok=True)
+        path = os.path.join(d, 'fuzz_' + sanitize(key) + '.json')
+        dump(path, {'kind': 'obligation', 'property': prop,
+                    'obligation': f'pyvc:{key}/runtime-contract-check', 'engine': 'pyvc',
+                    'text': 'run-time check of the contract on sampled inputs (bounded stand-in '
+                            'for the lost proof)', 'verifier_output': lo['detail'],
+                    'replay': rp, 'fuzz_models': models, 'functions': lo['functions']})
+        status, detail = _run_replay(path)
+        n_checked += 1
+        ob = Obligation(f'pyvc:{key}/runtime-contract-check', prop, 'pyvc',
+                        REFUTED if status == 'confirmed' else (DISCHARGED if status == 'spurious'
+                                                               else UNKNOWN),
+                        backend='runtime-contract-check (bounded)', functions=lo['functions'],
+                        text='BOUNDED stand-in (not a proof): the contract of a function whose '
+                             'proof is lost holds on 300 sampled inputs of the real function',
+                        detail=detail).to_json()
+        if status == 'confirmed':
+            ob['replay'] = rp
+            ob['replay_file'] = os.path.relpath(path, VERIF)
+            ob['replay_status'] = 'confirmed'
+            ob['replay_detail'] = detail
+            ob['prechecked'] = True
+        out.append(ob)
+    info['runtime_contract_checks'] = n_checked
+    return out
 
 
 def run_engine(modname, prop, tier):
@@ -181,6 +235,8 @@ def main(argv=None):
             crashes.append(crash)
     # replay refuted obligations on the real code
     for ob in obligations:
+        if ob['status'] == REFUTED and ob.get('prechecked'):
+            continue
         if ob['status'] == REFUTED:
             path, status, detail = replay_obligation(prop, ob)
             ob['replay_file'] = os.path.relpath(path, VERIF)
